@@ -56,8 +56,9 @@ def gen_cases(rng, tier):
             for via in ("explode", "substitute"):
                 for mdv in ([0, 1, 2, False] if md else [None]):
                     cases.append({"kind": "both", "md": md, "pl": pl, "via": via, "bt": bt, "mdv": mdv})
-        for none, ns in [(True, 0), (True, 1), (False, 0)]:
-            cases.append({"kind": "rollnone", "none": none, "ns": ns, "bt": bt})
+        for none, ns in [(True, 0), (True, 1), (True, 2), (False, 0), (False, 1)]:
+            for style in ("tuple", "list", "iterator", "generator", "filter"):
+                cases.append({"kind": "rollnone", "none": none, "ns": ns, "bt": bt, "style": style})
     if tier == "quick":
         return cases
     return cases   # the grammar is finite: quick already enumerates it completely
@@ -149,8 +150,12 @@ def impl_run(case):
                 h.substitute(lambda hh, o: o, **kw)
             out = {"ok": 0}
         elif k == "rollnone":
-            RollOutcome(None if case["none"] else 1, sources=[RollOutcome(1)] * case["ns"])
-            out = {"ok": 0}
+            srcs = [RollOutcome(1) for _ in range(case["ns"])]
+            style = case.get("style", "list")
+            given = {"tuple": tuple(srcs), "list": srcs, "iterator": iter(srcs), "generator": (x for x in srcs),
+                     "filter": filter(lambda x: True, srcs)}[style]
+            ro = RollOutcome(None if case["none"] else 1, sources=given)
+            out = {"ok": 0} if len(ro.sources) == case["ns"] else {"exc": "WrongSources"}
     except (ValueError, TypeError, IndexError, ZeroDivisionError) as e:
         out = {"exc": type(e).__name__}
     except Exception as e:  # noqa
